@@ -1858,7 +1858,11 @@ class Models:
                     W.mut += 1
                 return native(getattr(o, name), *a)
             if len(a) > 1:
-                raise Unsupported("list.index with bounds")
+                if name != "index" or len(a) > 3:
+                    raise Unsupported(f"list.{name} with extra arguments")
+                start = a[1] if isinstance(a[1], int) else self.I.concretize_int(W, a[1])
+                stop = None if len(a) < 3 else (a[2] if isinstance(a[2], int) else self.I.concretize_int(W, a[2]))
+                return Redirect(prelude._list_index_from, (o, x, start, stop))
             fn = {"index": prelude._list_index, "remove": prelude._list_remove, "count": prelude._list_count,
                   "__contains__": prelude._seq_contains}[name]
             return Redirect(fn, (o, x))
